@@ -48,6 +48,9 @@ type Input struct {
 	Together bool
 	WithST   bool
 	Cache    bool
+	// CacheFault: "" | get (every lookup fails, not a miss) | set | get-once; Discard: HTTPFetcher.DiscardCacheError
+	CacheFault string
+	Discard    bool
 }
 
 // lyingLengths are announced body sizes a server can claim
@@ -739,6 +742,12 @@ func genHostileBody(rng *rand.Rand, idx int) Input {
 	ch := pki.MustBuild(specs...)
 	cert, issuer, ikey := ch.Certs[0], ch.Certs[1], ch.Keys[1]
 	in := Input{Kind: "chain", WithST: rng.IntN(2) == 0, Cache: rng.IntN(2) == 0, Bodies: map[string][]byte{}, Lengths: map[string]int64{}, Endless: map[string]bool{}, Redirect: map[string]bool{}, RetryAfter: map[string]string{}}
+	if in.Cache {
+		// the caller's cache may be unreadable / unwritable, and the caller may
+		// have asked for such errors to be discarded
+		in.CacheFault = []string{"", "", "get", "set", "get-once"}[rng.IntN(5)]
+		in.Discard = rng.IntN(2) == 0
+	}
 	if upper {
 		b := pki.BuildCRL(&pki.CRL{IssuerRawName: ch.Certs[2].RawSubject, SignKey: ch.Keys[2], NextUpdate: pki.Future, Number: big.NewInt(7)})
 		in.Bodies[fmt.Sprintf("e0.%s.test/base.crl", fam)] = b[:len(b)-1]
